@@ -197,6 +197,62 @@ def monitors (c : Case) (ls : List Line) (n : Nat) : List String :=
     else []
   m.viol.reverse ++ endv ++ fifov
 
+/-! Solo monitor (follow-up C17t; tests the bound of `Props/C17Solo.lean` on the real runs): an
+operation during which no other thread produced an event — other threads may be stalled anywhere
+inside their own operations — must consist of at most `Deque.soloBound push` model events (`inv` and
+`ret` included: 19 for a push, 14 for a pop), a solo push must answer `true`, and a solo pop must
+answer `false` exactly when the model's chain was empty at its `inv` (`C17_deque_solo_bound`). -/
+structure SoloOp where
+  t : Nat
+  push : Bool
+  cnt : Nat
+  disturbed : Bool
+  emptyAtInv : Bool
+
+structure SoloAcc where
+  st : Option St
+  ops : List SoloOp := []
+  checked : Nat := 0      -- solo operations checked
+  helped : Nat := 0       -- of these: started while another thread was inside an operation
+  maxPush : Nat := 0
+  maxPop : Nat := 0
+  viol : List String := []
+
+def soloStep (fx : Bool) (a : SoloAcc) (e : Ev) : SoloAcc :=
+  match a.st with
+  | none => a
+  | some s =>
+    let t := e.tid
+    let s' := stepG fx s e
+    let ops := a.ops.map (fun o => if o.t == t then { o with cnt := o.cnt + 1 } else { o with disturbed := true })
+    match e with
+    | .inv _ push _ _ =>
+      { a with st := s', ops := { t := t, push := push, cnt := 1, disturbed := false, emptyAtInv := (contents s).isEmpty } :: ops }
+    | .ret _ ok _ =>
+      match ops.find? (fun o => o.t == t) with
+      | none => { a with st := s', ops := ops }
+      | some o =>
+        let ops' := ops.filter (fun o => o.t != t)
+        if o.disturbed then { a with st := s', ops := ops' } else
+        let v1 := if o.cnt > soloBound o.push then
+            [s!"thread {t}: a {if o.push then "push" else "pop"} that ran alone took {o.cnt} events, the solo bound is {soloBound o.push}"]
+          else []
+        let expectOk := o.push || !o.emptyAtInv
+        let v2 := if ok != expectOk then
+            [s!"thread {t}: a {if o.push then "push" else "pop"} that ran alone returned {ok}; the model's chain was {if o.emptyAtInv then "empty" else "non-empty"} when it began"]
+          else []
+        { a with st := s', ops := ops', checked := a.checked + 1,
+                 helped := a.helped + (if ops'.isEmpty then 0 else 1),
+                 maxPush := if o.push then max a.maxPush o.cnt else a.maxPush,
+                 maxPop := if o.push then a.maxPop else max a.maxPop o.cnt,
+                 viol := v2 ++ v1 ++ a.viol }
+    | _ => { a with st := s', ops := ops }
+
+def soloMon (fx : Bool) (n : Nat) (evs : List (Option Ev × String)) : SoloAcc :=
+  evs.foldl (fun a p => match p.1 with
+    | some e => soloStep fx a e
+    | none => { a with st := none }) { st := some (Deque.init n) }
+
 def runCase (c : Case) : String :=
   let n := c.threads.length
   let kind := c.get "kind" "deque"
@@ -211,6 +267,9 @@ def runCase (c : Case) : String :=
     s!"case {c.id} accept 0 ; final fifo-spec ; {monS}"
   else
   let evs := toEvents (backendOf kind) ls []
+  let so := soloMon fx n evs
+  let mon := mon ++ so.viol.reverse
+  let monS := if mon.isEmpty then "monitors ok" else "monitors FAIL: " ++ " | ".intercalate mon
   match accept fx (Deque.init n) evs 0 with
   | .error (i, raw) => s!"case {c.id} reject {i} [{raw}] ; {monS}"
   | .ok s =>
@@ -225,7 +284,7 @@ def runCase (c : Case) : String :=
           "final MISMATCH: run ended but model threads are not finished"
         else if expect != drained then
           s!"final MISMATCH: drained {drained} but the model's chain holds {contents s}"
-        else s!"final ok len={s.chain.length} stale={s.stale} tags={if fx then "keep" else "reset"}"
+        else s!"final ok len={s.chain.length} stale={s.stale} tags={if fx then "keep" else "reset"} solo={so.checked}/{so.helped} solomax={so.maxPush}/{so.maxPop}"
       else s!"final status {c.status}"
     s!"case {c.id} accept {evs.length} ; {fin} ; {monS}"
 
